@@ -505,6 +505,17 @@ theorem replace_whole_bitmap_loses_rows :
     (it.nextBatchPre (some 1) held).2.1.finish = [none]
     ∧ (it.nextBatch (some 1) held).2.1.finish = [some [1, 0, 0, 0], none] := by decide
 
+/-- REGRESSION (`interval:subday-part-dropped`, repaired in /repo d377780): an INTERVAL item is now 12
+bytes — months, days, milliseconds, three big-endian i32 — so `INTERVAL '1 hour'` (ms = 3 600 000 =
+0x0036EE80) is an ordinary `fixed 12` cell and reads back exactly, NULLs included (instance of
+`block_roundtrip_nullable`; the 8-byte encoding before the repair had no room for the third field). -/
+theorem interval_subday_regression :
+    decodeBlock { kind := .fixed 12, nullable := true, enc := .plain, blockSize := 64 } 3
+      (encodeBlock { kind := .fixed 12, nullable := true, enc := .plain, blockSize := 64 }
+        [some [0, 0, 0, 1, 0, 0, 0, 2, 0, 0, 0, 0], none, some [0, 0, 0, 0, 0, 0, 0, 0, 0, 0x36, 0xEE, 0x80]])
+    = some [some [0, 0, 0, 1, 0, 0, 0, 2, 0, 0, 0, 0], none, some [0, 0, 0, 0, 0, 0, 0, 0, 0, 0x36, 0xEE, 0x80]] := by
+  decide +kernel
+
 /-- FULL statement for fixed-width char (kept visible): every item of at most `w` bytes reads back. -/
 def CharRoundtripFull : Prop :=
   ∀ (w : Nat) (cells : List Cell), (∀ it, some it ∈ cells → it.length ≤ w) →
